@@ -20,9 +20,9 @@ pub fn property() -> Property {
             Part {
                 name: "status",
                 quick: 40_000,
-                thorough: 1_200_000,
+                thorough: 6_000_000,
                 single_shard: false, supplementary: false,
-                run: |cfg| run_part(cfg, prop_mix(), |r| PosCase { fen: gen::position(r, ClockDomain::Keep).fen() }, check_status),
+                run: |cfg| run_part(cfg, (prop_mix(), proptest::bool::ANY), |(r, clocks)| PosCase { fen: gen::position(r, if *clocks { ClockDomain::Engine } else { ClockDomain::Keep }).fen() }, check_status),
                 replay: |v| replay_case::<PosCase, _>(v, check_status),
             },
         ],
@@ -98,6 +98,9 @@ fn terminal_checks(b: &mut inkayaku_board::Bitboard, p: &Pos, what: &str, ctx: &
             return Err(format!("{what}: stalemate scored {v}, not the draw score"));
         }
         ctx.class(if in_check { "checkmate" } else { "stalemate" });
+        if p.half >= 100 {
+            ctx.class(if in_check { "checkmate_with_clock_ge_100" } else { "stalemate_with_clock_ge_100" });
+        }
         ctx.nontrivial(p.fen4());
     }
     Ok(())
